@@ -113,12 +113,43 @@ class InhUnion:
     subs: Tuple[Obj, ...]
 
 
+def disc_mapping2(td: Disc) -> Dict[str, Obj]:
+    """documented default mapping: the literal values of the alternative's field *carrying the
+    discriminator property* when it has one, else the alternative's type name; an explicit
+    mapping overrides the implicit keys of the classes it mentions.  The field is identified by
+    its external name before the per-call aliaser (field alias, class-level aliaser) -- the
+    discriminator alias goes through the per-call aliaser like every property name."""
+    default: Dict[str, Obj] = {}
+    for a in td.alts:
+        keys = None
+        for f in a.fields:
+            if f.flatten or f.pattern is not None or f.additional:
+                continue
+            if M.ext_name(a, f, M.Opts()) == td.alias:
+                t0 = f.t  # (through Annotated and NewType, as drivers/model.py)
+                while isinstance(t0, (Ann, NewT)):
+                    t0 = t0.t
+                if isinstance(t0, Lit):
+                    keys = [v for v in t0.values if isinstance(v, str)]
+        for k in keys if keys is not None else [a.name]:
+            default[k] = a
+    if td.mapping is None:
+        return default
+    by_name = {a.name: a for a in td.alts}
+    explicit = {k: by_name[n] for k, n in td.mapping}
+    res = dict(explicit)
+    for k, a in default.items():
+        if a.name not in {x.name for x in explicit.values()}:
+            res[k] = a
+    return res
+
+
 def discx_mapping(td, opts=None) -> Dict[str, Obj]:
     """key -> alternative.  Default: the literal values of the alternative's discriminator field
     when it has one, else its type name.  An explicit mapping replaces the implicit keys of the
     classes it mentions (override_implicit=True, the default) or is added to them."""
     alts = td.alts if isinstance(td, (DiscX, Disc)) else td.subs
-    default = M.disc_mapping(Disc(tuple(alts), td.alias), M.Opts())
+    default = disc_mapping2(Disc(tuple(alts), td.alias))
     mapping = getattr(td, "mapping", None)
     if mapping is None:
         return default
@@ -260,7 +291,7 @@ class RefX(M.Ref_):
             td = ALL_EXTRAS[td.name]
         if isinstance(td, Unsup):
             raise M.Rejected(M.Err(["unsupported"]))
-        if isinstance(td, (DiscX, InhBase, InhUnion)):
+        if isinstance(td, (Disc, DiscX, InhBase, InhUnion)):
             E = M.messages()
             if type(d) is not dict:
                 raise M.Rejected(M.Err([M.bad_type_msg(d, dict)]))
@@ -279,13 +310,13 @@ def mapping_of(td) -> Dict[str, Obj]:
     if isinstance(td, Ref) and td.name in ALL_EXTRAS:
         td = ALL_EXTRAS[td.name]
     if isinstance(td, Disc):
-        return M.disc_mapping(td, M.Opts())
+        return disc_mapping2(td)
     if isinstance(td, DiscX):
         return discx_mapping(td)
     if isinstance(td, InhBase):
-        return M.disc_mapping(Disc(td.subs, td.alias), M.Opts())
+        return disc_mapping2(Disc(td.subs, td.alias))
     if isinstance(td, InhUnion):
-        return M.disc_mapping(Disc(td.subs, td.base.alias), M.Opts())
+        return disc_mapping2(Disc(td.subs, td.base.alias))
     raise TypeError(td)
 
 
@@ -347,6 +378,27 @@ DISCS_X += [
     Disc((CASH, CARD), "kind", mapping=(("money", "Cash"),)),
     Disc((WIRE, CASH), "kind"),
 ]
+# the discriminator property carried by a field whose python name differs from it: field alias,
+# class-level aliaser, per-call aliaser (snake_case name under the camel option), all three;
+# Literal of one / several values, Enum-typed field
+KIT = Obj("dataclass", "Kit", (Fld("kind", Lit(("kit",)), alias="type"), Fld("name", STR, has_default=True, default="k")))
+PUP = Obj("dataclass", "Pup", (Fld("sort", Lit(("pup", "puppy")), alias="type"), Fld("age", INT, has_default=True, default=0)))
+KUP = Obj("dataclass", "Kup", (Fld("kind", Lit(("kup", "kup2"))), Fld("n", INT, has_default=True, default=0)), class_aliaser="upper")
+KLO = Obj("dataclass", "Klo", (Fld("sort", Lit(("klo",)), alias="kind"), Fld("m", INT, has_default=True, default=0)), class_aliaser="upper")
+SNA = Obj("dataclass", "Sna", (Fld("the_pet_kind", Lit(("sna", "snake")), alias="pet_kind"), Fld("len_cm", INT, has_default=True, default=1)))
+ALL3 = Obj("dataclass", "All3", (Fld("the_sort", Lit(("all3", "a3")), alias="pet_kind"), Fld("some_n", INT, has_default=True, default=0)), class_aliaser="prefix")
+ALL3B = Obj("dataclass", "All3b", (Fld("pet_kind", Lit(("b3",))), Fld("q", INT, has_default=True, default=0)), class_aliaser="prefix")
+EELKIND = Enm("EelKind", (("A", "Eel"), ("B", "x")))
+EEL = Obj("dataclass", "Eel", (Fld("sort", EELKIND, alias="type"), Fld("len", INT, has_default=True, default=0)))
+DISCS_X += [
+    Disc((KIT, PUP, CAT), "type"),
+    Disc((PUP, KIT), "type", mapping=(("doggy", "Pup"),)),
+    Disc((KUP, KLO), "KIND"),
+    Disc((SNA, CAT, OWL), "pet_kind"),
+    Disc((ALL3, ALL3B), "px_pet_kind"),
+    Disc((EEL, KIT), "type"),
+    Disc((EEL, PUP, CAT), "type", mapping=(("x", "Eel"),)),
+]
 DISCX1 = X(DiscX("DxKeep", (CAT, DOG), "type", mapping=(("c", "Cat"),), override_implicit=False))
 DISCX2 = X(DiscX("DxKeep2", (CAT, DOG, BIRD), "type", mapping=(("bird", "Cat"),), override_implicit=False))
 
@@ -362,7 +414,11 @@ SUB_G = Obj("dataclass", "SubG", (Fld("g", INT), Fld("pp", Mapp(STR, INT), facto
 SUB_H = Obj("dataclass", "SubH", (Fld("side", INT),))
 SUB_K = Obj("dataclass", "SubK", (Fld("type", Ann(Lit(("k1", "k2")), cons(max_len=5))), Fld("n", INT, has_default=True, default=0)))
 BASE3 = InhBase("Base3", "type", (SUB_F, SUB_G, SUB_H, SUB_K))
-INH = [X(BASE1), X(BASE2), X(InhUnion("Base1_AB", BASE1, (SUB_A, SUB_B))), X(InhUnion("Base1_CA", BASE1, (SUB_C, SUB_A))), X(InhUnion("Base2_QP", BASE2, (SUB_Q, SUB_P))), X(BASE3), X(InhUnion("Base3_FK", BASE3, (SUB_F, SUB_K)))]
+SUB_L = Obj("dataclass", "SubL", (Fld("kind", Lit(("l1", "l2")), alias="node_kind"), Fld("n", INT, has_default=True, default=0)))
+SUB_M = Obj("dataclass", "SubM", (Fld("sort", Lit(("m1",)), alias="node_kind"), Fld("m", STR, has_default=True, default="m")))
+SUB_N = Obj("dataclass", "SubN", (Fld("x", INT, has_default=True, default=0),))
+BASE4 = InhBase("Base4", "node_kind", (SUB_L, SUB_M, SUB_N))
+INH = [X(BASE1), X(BASE2), X(InhUnion("Base1_AB", BASE1, (SUB_A, SUB_B))), X(InhUnion("Base1_CA", BASE1, (SUB_C, SUB_A))), X(InhUnion("Base2_QP", BASE2, (SUB_Q, SUB_P))), X(BASE3), X(InhUnion("Base3_FK", BASE3, (SUB_F, SUB_K))), X(BASE4), X(InhUnion("Base4_ML", BASE4, (SUB_M, SUB_L)))]
 
 
 def alt_pool(tier: str) -> List[Any]:
@@ -448,6 +504,13 @@ EXTRA_ATOMS = [1.0, 2, 3, "b", "c", [1, "a"], [1, 2], [2.5], ["a", "b"], {"name"
 
 
 def samples_of(td) -> List[Any]:
+    if isinstance(td, Disc):
+        out = []
+        alias = P._dyn(td.alias)
+        for k, a in disc_mapping2(td).items():
+            for s in P._obj_samples(a, 0)[:2]:
+                out.append({**s, alias: k})
+        return out
     if isinstance(td, Ref) and td.name in ALL_EXTRAS:
         x = ALL_EXTRAS[td.name]
         if isinstance(x, Unsup):
@@ -608,7 +671,7 @@ def class_matches(td, v, world: World) -> bool:
 
 
 def build_objects(world: World):
-    for o in P.OBJECTS + [P.PQ_Q, P.A2, CAT, DOG, BIRD, FISH, LION, OWL, NEWT, TDA, TDB, POS2, CIRC, PATT, BOTH, DEEP, CARD, XFER, CASH, WIRE]:
+    for o in P.OBJECTS + [P.PQ_Q, P.A2, CAT, DOG, BIRD, FISH, LION, OWL, NEWT, TDA, TDB, POS2, CIRC, PATT, BOTH, DEEP, CARD, XFER, CASH, WIRE, KIT, PUP, KUP, KLO, SNA, ALL3, ALL3B, EEL]:
         M.realize(o, world.realm)
     for x in list(ALL_EXTRAS.values()):
         world.realize(x)
